@@ -20,6 +20,11 @@ func init() {
 			Kind: slip.MacroSymbol,
 			Name: "select",
 			Args: []*slip.DocArg{
+				{
+					Name: "clause",
+					Type: "list",
+					Text: "The first clause, of the same form as the other clauses.",
+				},
 				{Name: "&rest"},
 				{
 					Name: "clause*",
